@@ -31,6 +31,8 @@ class Ring:
         self.name = name
         self.cancelled_constants = set()
         self.n_decisions = 0
+        self.order_fork = False
+        self.order_lits = []
         self.max_decisions = 20000
         # per-path state
         self.subst = []            # [(atom term, replacement term)]
@@ -619,10 +621,30 @@ class Res:
 
     __hash__ = None
 
-    def __lt__(self, o):
-        raise Unsupported("ordering on a residue")
+    def _order(self, o, op):
+        """ordering of canonical representatives is not an algebraic notion: when the ring allows it
+        (order_fork), the comparison is an unconstrained fork (both outcomes explored)."""
+        if not getattr(self.ring, "order_fork", False):
+            raise Unsupported("ordering on a residue")
+        ctx = core.cur()
+        i = len(ctx.taken)
+        d = ctx.prefix[i] if i < len(ctx.prefix) else False
+        ctx.taken.append(d)
+        ctx.forks += 1
+        self.ring.order_lits.append((op, d))
+        return d
 
-    __gt__ = __le__ = __ge__ = __lt__
+    def __lt__(self, o):
+        return self._order(o, "<")
+
+    def __gt__(self, o):
+        return self._order(o, ">")
+
+    def __le__(self, o):
+        return self._order(o, "<=")
+
+    def __ge__(self, o):
+        return self._order(o, ">=")
 
     def __int__(self):
         raise Unsupported("int() on a residue outside the shimmed world")
